@@ -22,7 +22,7 @@ func init() {
 	Descriptions["C12"] = "C12-done-last (connWg.Done ordered after conn.close and onCloseHandler on every path of the per-connection goroutine), " +
 		"C12-listener-release (every return of Run after a successful net.Listen closes the listener unless the path is the listener-closed accept error), " +
 		"C12-idempotent (Stop's only error return is guarded by the not-already-closed test), C12-stop-order (listener.Close and cancel precede connWg.Wait). " +
-		"C12-add-vs-wait is reported as a NOTE (suspected, not demonstrated). Does not decide kernel-level port state."
+		"C12-add-vs-wait (connWg.Add is ordered with Stop's cancel+Wait by Server.mu and a not-shut-down test in the same critical section). Does not decide kernel-level port state."
 }
 
 // ------------------------------------------------------------------ C08
@@ -460,10 +460,19 @@ func checkC12(c *Ctx) {
 			}
 		}
 	}
-	if len(doneSites) != 1 {
-		R.Fail("C12-done-last", "connWg.Done: single site", c.P.Pos(m.connFn.Pos()), sprintf("expected exactly one connWg.Done call, found %d", len(doneSites)))
+	var inConn []ssa.CallInstruction
+	var releases []ssa.CallInstruction
+	for _, d := range doneSites {
+		if d.Parent() == m.run {
+			releases = append(releases, d)
+		} else {
+			inConn = append(inConn, d)
+		}
+	}
+	if len(inConn) != 1 {
+		R.Fail("C12-done-last", "connWg.Done: single site in the connection goroutine", c.P.Pos(m.connFn.Pos()), sprintf("expected exactly one connWg.Done call in the connection goroutine, found %d", len(inConn)))
 	} else {
-		d := doneSites[0]
+		d := inConn[0]
 		key := fname(d.Parent()) + ": connWg.Done after close and OnClose"
 		switch {
 		case d.Parent() == m.teardown && isCall(d):
@@ -507,17 +516,107 @@ func checkC12(c *Ctx) {
 			R.Unknown("C12-done-last", key, c.pos(d), "connWg.Done is neither in the teardown nor a defer of the connection goroutine")
 		}
 	}
-	// Add paired with the go
+	// Add / go / release pairing inside Run
 	isAdd := func(cc *ssa.CallCommon) bool { return isWG(cc, "Add", G, "Server", "connWg") }
-	for _, ci := range an.Calls(m.run) {
-		if !isAdd(ci.Common()) {
+	isRel := func(in ssa.Instruction) bool {
+		for _, r := range releases {
+			if in == ssa.Instruction(r) {
+				return true
+			}
+		}
+		return false
+	}
+	var adds []ssa.CallInstruction
+	for _, f := range c.shippedFuncs(G) {
+		for _, ci := range an.Calls(f) {
+			if isAdd(ci.Common()) {
+				adds = append(adds, ci)
+			}
+		}
+	}
+	head := loopHeadOf(m.accept)
+	for _, ci := range adds {
+		key := fname(ci.Parent()) + ": connWg.Add(1) paired with the connection goroutine"
+		k, isK := an.IntConst(ci.Common().Args[1])
+		if ci.Parent() != m.run || !isK || k != 1 || !isCall(ci) {
+			R.Fail("C12-done-last", key, c.pos(ci), "connWg.Add is not a plain Add(1) in Run")
 			continue
 		}
-		k, isK := an.IntConst(ci.Common().Args[1])
-		same := ci.Block() == m.connGo.Block() && an.PointOf(ci).I < an.PointOf(m.connGo).I
-		R.Check(isK && k == 1 && same, "C12-done-last", "(*Server).Run: connWg.Add(1) before go", c.pos(ci), "Add(1) in the block of the per-connection go statement", "connWg.Add is not Add(1) immediately before the per-connection go statement")
+		ok := true
+		why := ""
+		// every go of a connection goroutine is preceded by the Add
+		if w := an.Search(an.Point{B: head, I: 0}, isInstr(m.connGo), isInstr(ci)); w != nil && head != nil {
+			ok, why = false, "a connection goroutine can be started without a preceding connWg.Add(1): "+c.trail(w)
+		}
+		// between Add and go there is no Done
+		if w := an.Search(an.After(ci), isRel, or(isInstr(m.connGo))); w != nil {
+			// a release is fine only if after it the go is not reachable without a new Add
+			for _, r := range releases {
+				if w2 := an.Search(an.After(r), isInstr(m.connGo), isInstr(ci)); w2 != nil {
+					ok, why = false, "after giving the place back (connWg.Done) the connection goroutine can still be started: "+c.trail(w2)
+				}
+			}
+		}
+		// after an Add, every path reaches the go or a release before returning or iterating again
+		leak := or(an.IsReturn, func(in ssa.Instruction) bool { return head != nil && in.Block() == head && an.PointOf(in).I == 0 })
+		if w := an.Search(an.After(ci), leak, or(isInstr(m.connGo), isRel)); w != nil {
+			ok, why = false, "a path after connWg.Add(1) neither starts the connection goroutine nor gives the place back: Stop would wait forever: "+c.trail(w)
+		}
+		R.Check(ok, "C12-done-last", key, c.pos(ci), sprintf("every connection goroutine start is preceded by this Add(1); %d release site(s) give the place back on paths that start no goroutine", len(releases)), why)
 	}
-
+	if len(adds) != 1 {
+		R.Fail("C12-done-last", "connWg.Add: single site", c.P.Pos(m.run.Pos()), sprintf("expected one connWg.Add site, found %d", len(adds)))
+	}
+	// ---- C12-add-vs-wait
+	if len(adds) == 1 {
+		add := adds[0]
+		key := "(*Server).Run: connWg.Add ordered with Stop's Wait"
+		runLS := an.LockSets(m.run, nil)
+		stopLS := an.LockSets(m.stop, nil)
+		var wait ssa.CallInstruction
+		var cancel ssa.CallInstruction
+		for _, ci := range an.Calls(m.stop) {
+			if isWG(ci.Common(), "Wait", G, "Server", "connWg") {
+				wait = ci
+			}
+			if isDynCallOfField(ci.Common(), G, "Server", "shutdownCancel") {
+				cancel = ci
+			}
+		}
+		addHeldW := runLS[add].Holds("s.mu", false)
+		stopHeld := wait != nil && cancel != nil && stopLS[wait].Holds("s.mu", true) && stopLS[cancel].Holds("s.mu", true)
+		// the Add is control dependent on "not shut down", tested under the same critical section
+		guardOK := false
+		for _, fct := range an.BranchFacts(add.Block()) {
+			cond, neg := an.Not(fct.Cond)
+			if c.isShutdownErrAtom(cond) {
+				x, trueMeansNil, _ := an.NilCheck(cond)
+				_ = x
+				pol := fct.True != neg
+				if pol == trueMeansNil { // Err() == nil
+					if iff := condIfOf(cond); iff != nil && runLS[iff].Holds("s.mu", false) {
+						// from the not-shut-down edge to the Add the lock is never released
+						unlock := callPred(func(cc *ssa.CallCommon) bool { k, _ := an.LockOp(cc); return k == "Unlock" || k == "RUnlock" })
+						var live *ssa.BasicBlock
+						for _, sc := range iff.Block().Succs {
+							if sc.Dominates(add.Block()) {
+								live = sc
+							}
+						}
+						if live != nil && an.Search(an.Point{B: live, I: 0}, unlock, isInstr(add)) == nil {
+							guardOK = true
+						}
+					}
+				}
+			}
+		}
+		switch {
+		case addHeldW && stopHeld && guardOK:
+			R.OK("C12-add-vs-wait", key, c.pos(add), "Add(1) runs under s.mu.Lock after testing shutdownCtx.Err()==nil in the same critical section; Stop cancels and waits while holding s.mu (read mode): the Add either happens-before Stop's Wait or sees the shutdown")
+		default:
+			R.Fail("C12-add-vs-wait", key, c.pos(add), sprintf("connWg.Add is not ordered with Stop's cancel+Wait (Add under s.mu write lock: %v; Stop holds s.mu across cancel and Wait: %v; Add guarded by a not-shut-down test in the same critical section: %v): a connection accepted concurrently with Stop can outlive it", addHeldW, stopHeld, guardOK))
+		}
+	}
 	// ---- C12-listener-release
 	var listen *ssa.Call
 	for _, ci := range an.Calls(m.run) {
@@ -611,8 +710,7 @@ func checkC12(c *Ctx) {
 		R.Check(ok, "C12-idempotent", "(*Server).Stop: error return", c.pos(ret), "only when listener.Close failed for a reason other than already-closed", "Stop can return an error on a repeated call (error return not guarded by the already-closed test)")
 	}
 	R.Count("C12-idempotent/error-returns", nErr)
-	R.Note("C12-add-vs-wait (NOTE, suspected defect D10, not demonstrated): connWg.Add in Run is not ordered with Stop's connWg.Wait by a common lock or a run-exit signal; a connection accepted concurrently with Stop can be torn down after Stop returned")
-	R.NotDecided = append(R.NotDecided, "that the kernel refuses connections / the port can be re-bound", "callbacks that never return", "C12-add-vs-wait ordering (NOTE only)")
+	R.NotDecided = append(R.NotDecided, "that the kernel refuses connections / the port can be re-bound", "callbacks that never return")
 }
 
 func retKind(c *Ctx, m *serverModel, ret *ssa.Return) string {
